@@ -65,7 +65,11 @@ fn boundary_script(which: u64) -> Vec<Op> {
                 add: vec!["65002 => 65000, 65001".into()], remove: vec![] },
             Op::Quiesce,
             Op::RollInit { ca: "c1".into() }, Op::Quiesce,
+            // every kind of object changes while the new key is staged
             roa("c1", &["10.1.0.0/16-18 => 65003"], &[]),
+            Op::AspaProviders { ca: "c1".into(), customer: 65002,
+                added: vec![65003], removed: vec![65001] },
+            Op::BgpsecAdd { ca: "c1".into(), asn: 65002, key: 1 },
             Op::SyncAll, Op::Quiesce,
             Op::RollActivate { ca: "c1".into() }, Op::Quiesce,
             roa("c1", &[], &["10.0.0.0/24-24 => 65000"]),
